@@ -22,6 +22,8 @@ from harness.session import Session
 
 PROP = "C03"
 LEVEL = "exploration"
+TECHNIQUE = 'wire monitor on F/S/T/temperature words and motion targets + exact IEEE bounds predictor + icontract postcondition on BoundManager.validate'
+LEVEL_TEXT = 'Held on random bounds configurations and boundary-value calls (min, max, +-1 ulp, 0, NaN, inf). Exploration over an unbounded input space.'
 RULE = ("random bounds configurations (any subset of the seven properties, random min<max, "
         "re-configured mid-history) followed by 40-60 commands that carry a bounded quantity, values "
         "drawn from {min, max, nextafter(min,-inf), nextafter(max,+inf), inside, far outside, NaN, "
